@@ -156,12 +156,19 @@ const (
 type c14sStats struct {
 	out     [20]atomic.Int64
 	mu      sync.Mutex
-	classes map[string]struct{}
+	classes map[string]map[string]any // trim class -> first example seen
 }
 
-func (s *c14sStats) class(k string) {
+func (s *c14sStats) class(k string, in *c14sInst, x [c14sNC]bool) {
 	s.mu.Lock()
-	s.classes[k] = struct{}{}
+	if _, ok := s.classes[k]; !ok {
+		var h []string
+		for _, o := range in.hist {
+			h = append(h, c14sOpTab[o].name)
+		}
+		s.classes[k] = map[string]any{"trim_class": k, "low": in.cfg.low, "high": in.cfg.high, "history_including_start": h,
+			"closed_by_this_trim": c14sSetStr(x), "model_at_trim": in.m.snap()}
+	}
 	s.mu.Unlock()
 }
 
@@ -179,6 +186,7 @@ type c14sInst struct {
 	conns   [c14sNC]*c14sFakeConn
 	m       c14sModel
 	closedP [c14sNC]bool // closed by a trim, Disconnected not yet delivered (statistics only)
+	hist    []c14sOp     // operations applied so far (start prefix included), for the samples
 	pending error        // violation found while applying the start prefix
 	noExact bool         // skip the exact comparison (only while re-applying an already verified start prefix)
 	done    bool
@@ -241,6 +249,7 @@ func (in *c14sInst) Apply(op c14sOp) (err error) {
 }
 
 func (in *c14sInst) apply(op c14sOp) error {
+	in.hist = append(in.hist, op)
 	d := &c14sOpTab[op]
 	m := &in.m
 	st := in.st
@@ -344,7 +353,7 @@ func (in *c14sInst) apply(op c14sOp) error {
 			st.out[c14sOutForcedUnprot].Add(1)
 		}
 		if m.count() > m.low {
-			st.class(c14sTrimClass(m, "forced", x, m.values()))
+			st.class(c14sTrimClass(m, "forced", x, m.values()), in, x)
 		}
 		if err != nil {
 			return err
@@ -365,7 +374,7 @@ func (in *c14sInst) apply(op c14sOp) error {
 			st.out[c14sOutTrimNoopIneligible].Add(1)
 		}
 		if m.count() > m.low {
-			st.class(c14sTrimClass(m, "trim", x, m.values()))
+			st.class(c14sTrimClass(m, "trim", x, m.values()), in, x)
 		}
 		in.noteClosed(x)
 		in.resolvePruned()
@@ -404,7 +413,7 @@ func (in *c14sInst) step() error {
 	}
 	if nx > 0 {
 		in.st.out[c14sOutTickClosed].Add(1)
-		in.st.class(c14sTrimClass(m, "tick", x, post))
+		in.st.class(c14sTrimClass(m, "tick", x, post), in, x)
 	} else {
 		in.st.out[c14sOutTickNothing].Add(1)
 	}
